@@ -443,7 +443,9 @@ func (x *Exec) convertForAssign(st *State, v T, to types.Type) T {
 // boxValue stores a non-reference value in a fresh interface cell.
 func (x *Exec) boxValue(st *State, v T, iface types.Type) T {
 	sortName := x.d.sortOf(v.Ty)
-	fn := "box_" + sanitize(sortName)
+	// one boxing function per dynamic type: equal underlying values of two different
+	// named types must not share an interface cell (their dynamic types differ)
+	fn := fmt.Sprintf("box_%s_t%d", sanitize(sortName), x.d.typeID(v.Ty))
 	un := "unbox_" + sanitize(sortName)
 	x.d.declareFun(fn, []string{sortName}, "Int")
 	x.d.declareFun(un, []string{"Int"}, sortName)
@@ -762,7 +764,12 @@ func (x *Exec) havocLoopTargets(st *State, body []ast.Node, extraModifies []*Cla
 			if cur.Fn != nil {
 				continue
 			}
-			st.vars[o] = x.havocVal(st, o.Name(), o.Type())
+			nv := x.havocVal(st, o.Name(), o.Type())
+			if _, isSlice := o.Type().Underlying().(*types.Slice); isSlice && !mod.direct[o] {
+				// only element stores inside the loop: offset and length are loop-invariant
+				nv = T{S: fmt.Sprintf("(mk-slc %s %s %s)", slcArr(nv.S), slcOff(cur.S), slcLen(cur.S)), Ty: nv.Ty}
+			}
+			st.vars[o] = nv
 		} else if ref, ok := st.boxed[o]; ok {
 			x.storeThrough(st, ref, o.Type(), x.havocVal(st, o.Name(), o.Type()))
 		}
@@ -772,6 +779,13 @@ func (x *Exec) havocLoopTargets(st *State, body []ast.Node, extraModifies []*Cla
 		nm := x.d.freshName("H_" + key)
 		x.d.declareConst(nm, x.d.heapSorts[key])
 		st.heap[key] = nm
+		// a slice-typed field that is only written element-wise inside the loop keeps
+		// its offset and length in every object
+		if ft := x.d.heapTypes[key]; ft != nil && !mod.heapDirect[key] && !mod.heapUnknown[key] {
+			if _, isSlice := ft.Underlying().(*types.Slice); isSlice {
+				st.assume(fmt.Sprintf("(forall ((r Int)) (! (and (= (slc-len (select %s r)) (slc-len (select %s r))) (= (slc-off (select %s r)) (slc-off (select %s r)))) :pattern ((select %s r))))", nm, pre, nm, pre, nm))
+			}
+		}
 		// loop frame: if every store to this field inside the loop goes through a
 		// loop-invariant identifier, all other objects allocated before the loop keep their value
 		if bases := mod.heapBases[key]; len(bases) > 0 && !mod.heapUnknown[key] {
@@ -859,6 +873,29 @@ func (x *Exec) execFor(st *State, s *ast.ForStmt, label string) *State {
 	x.assertInvariants(st, ls, ord, "init", nil, s)
 	head := st.clone()
 	x.havocLoopTargets(head, nodes, nil, s)
+	// canonical counting loop `for i := e; i < n; i++` whose body never assigns i:
+	// i never drops below its initial value (built-in inference, not a user invariant)
+	if as, ok := s.Init.(*ast.AssignStmt); ok && as.Tok == token.DEFINE && len(as.Lhs) == 1 && len(as.Rhs) == 1 {
+		if id, ok := as.Lhs[0].(*ast.Ident); ok {
+			if inc, ok := s.Post.(*ast.IncDecStmt); ok && inc.Tok == token.INC {
+				if pid, ok := ast.Unparen(inc.X).(*ast.Ident); ok && pid.Name == id.Name {
+					if be, ok := s.Cond.(*ast.BinaryExpr); ok && be.Op == token.LSS {
+						if cid, ok := ast.Unparen(be.X).(*ast.Ident); ok && cid.Name == id.Name {
+							o := x.info().Defs[id]
+							if o != nil && !x.modifiedBy([]ast.Node{s.Body}).vars[o] && !x.pkg.addrTaken[o] {
+								if v0, ok := st.vars[o]; ok {
+									if v1, ok := head.vars[o]; ok && isIntType(o.Type()) {
+										head.assume(fmt.Sprintf("(>= %s %s)", v1.S, v0.S))
+										x.note("counting loop at %s: the counter stays at or above its initial value (built-in inference)", x.posShort(s))
+									}
+								}
+							}
+						}
+					}
+				}
+			}
+		}
+	}
 	x.assumeInvariants(head, ls, nil, s)
 	var decr0 string
 	if ls != nil && ls.Decreases != nil {
